@@ -312,6 +312,8 @@ def main(argv=None):
         "wall_s": round(wall, 2),
         "violations": len(violations),
     }
+    if not tot.discard_samples and os.path.exists(os.path.join(ROOT, "out", "discards", pid + ".json")):
+        os.remove(os.path.join(ROOT, "out", "discards", pid + ".json"))
     if tot.discard_samples:
         # diagnostic only: one dropped input per error class (is a defect hiding among the discarded cases?)
         ddir = os.path.join(ROOT, "out", "discards")
